@@ -33,6 +33,23 @@ def validated_bpb_fields(facts):
     return an.established
 
 
+def copy_sources(fn, local):
+    """the local itself and the locals it is a plain move / copy of (through parameters of inlined helpers)"""
+    out = {local}
+    cur = local
+    for _ in range(12):
+        defs = [s for bi in fn.reachable() for s in fn.blocks[bi]['stmts']
+                if s['k'] == 'assign' and s['lhs']['l'] == cur and not s['lhs']['p']]
+        if len(defs) != 1 or defs[0]['rv']['k'] != 'use':
+            break
+        p = op_place(defs[0]['rv']['a'])
+        if p is None or p['p']:
+            break
+        cur = p['l']
+        out.add(cur)
+    return out
+
+
 def run(ctx, rep):
     facts = ctx.facts
     roots = [iid for n, iid in sorted(facts.roots.items())
@@ -202,7 +219,7 @@ def run(ctx, rep):
                         if s2['k'] == 'assign' and s2['rv']['k'] == 'agg' and 'offset_range' in s2['rv'].get('fields', []):
                             o = s2['rv']['ops'][s2['rv']['fields'].index('offset_range')]
                             p = op_place(o)
-                            if p is not None and p['l'] == lhs:
+                            if p is not None and lhs in copy_sources(R, p['l']):
                                 used = True
                 if used:
                     p = op_place(s['rv']['ops'][0])
